@@ -190,6 +190,10 @@ def run(ctx):
     A = 'TreeKemPublic::add_leaf'
     ctx.check('MUST-PASS', 'add_leaf: new leaf recorded as unmerged', lambda P_: must_pass(P_, A, r'TreeKemPublic::update_unmerged$'), floor=1)
     ctx.check('ORDER', 'add_leaf: inserted before unmerged bookkeeping', lambda P_: order(P_, A, r'NodeVec::insert_leaf$', r'TreeKemPublic::update_unmerged$'), floor=1)
+    # the committer may drop a by-reference Add that add_leaf rejects (duplicate identity / key): a leaf must enter the node vector
+    # only after the uniqueness check accepted it, or the rejected leaf stays in the committer's tree
+    ctx.check('ORDER', 'add_leaf: uniqueness check before the leaf enters the tree',
+              lambda P_: order(P_, A, r'(^|::)index_insert$', r'NodeVec::insert_leaf$'), floor=1)
     ctx.check('WIRE', 'add_leaf: placed at the next empty leaf',
               lambda P_: wire(P_, A, r'NodeVec::insert_leaf$', 1, r'NodeVec::next_empty_leaf\(self\.nodes'), floor=1)
     V = 'TreeValidator::validate'
